@@ -292,6 +292,61 @@ def le_create_and_cancel(present: int, cancel: int, again: int) -> bool:
             return True
 
 
+def _classic_pair(loop):
+    """two controllers with a BR/EDR connection between them (set up through HCI commands); returns (c, peer, sink, handle)"""
+    c, peer, sink = fresh_controller(loop)
+    c.on_hci_command_packet(hci.HCI_Create_Connection_Command(bd_addr=peer.public_address, packet_type=0xCC18, page_scan_repetition_mode=1, reserved=0, clock_offset=0, allow_role_switch=1))
+    _settle(loop)
+    peer.on_hci_command_packet(hci.HCI_Accept_Connection_Request_Command(bd_addr=c.public_address, role=hci.Role.PERIPHERAL))
+    _settle(loop)
+    done = [e for e in _events(sink, hci.HCI_Connection_Complete_Event) if e.status == 0]
+    return c, peer, sink, (done[0].connection_handle if done else None)
+
+
+def _le_pair(loop):
+    c, peer, sink = fresh_controller(loop)
+    _advertise(peer)
+    _settle(loop)
+    _le_create(c, peer.public_address)
+    _settle(loop)
+    done = [e for e in _events(sink, hci.HCI_LE_Connection_Complete_Event) + _events(sink, hci.HCI_LE_Enhanced_Connection_Complete_Event) if e.status == 0]
+    return c, peer, sink, (done[0].connection_handle if done else None)
+
+
+_PROCS = {
+    # name: (transport, builder(handle, x, peer), completion event class)
+    'disconnect': ('any', lambda h, x, p: hci.HCI_Disconnect_Command(connection_handle=h, reason=0x13), hci.HCI_Disconnection_Complete_Event),
+    'remote_features': ('classic', lambda h, x, p: hci.HCI_Read_Remote_Supported_Features_Command(connection_handle=h), hci.HCI_Read_Remote_Supported_Features_Complete_Event),
+    'remote_ext_features': ('classic', lambda h, x, p: hci.HCI_Read_Remote_Extended_Features_Command(connection_handle=h, page_number=x), hci.HCI_Read_Remote_Extended_Features_Complete_Event),
+    'remote_name': ('classic', lambda h, x, p: hci.HCI_Remote_Name_Request_Command(bd_addr=p.public_address, page_scan_repetition_mode=1, reserved=0, clock_offset=0), hci.HCI_Remote_Name_Request_Complete_Event),
+    'le_remote_features': ('le', lambda h, x, p: hci.HCI_LE_Read_Remote_Features_Command(connection_handle=h), hci.HCI_LE_Read_Remote_Features_Complete_Event),
+}
+
+
+@harness(pre=['0 <= x <= 255'], family='procedures', kernels=K_CTL + ('bumble.controller.Controller.on_lmp_packet', 'bumble.controller.Controller.on_ll_control_pdu'), timeout=(90, 300),
+         grid={'proc': ['disconnect', 'remote_features', 'remote_ext_features', 'remote_name', 'le_remote_features'], 'transport': ['classic', 'le']},
+         bounds='procedures on a live BR/EDR or LE connection between two virtual controllers (disconnect, remote features, remote extended features with a symbolic page 0..255, remote name, LE remote features): one Command Status, and when it is PENDING/SUCCESS the completion event of that procedure follows')
+def procedure_concludes(x: int, proc: str, transport: str) -> bool:
+    kind, build, done_cls = _PROCS[proc]
+    if kind not in ('any', transport):
+        return True
+    with detloop.running() as loop:
+        with untraced():
+            c, peer, sink, handle = _classic_pair(loop) if transport == 'classic' else _le_pair(loop)
+        if handle is None:
+            return False
+        n0 = len(replies(sink))
+        c.on_hci_command_packet(build(handle, x, peer))
+        _settle(loop)
+        r = replies(sink)[n0:]
+        if len(r) != 1 or r[0][0] != 'cs':
+            return False
+        status = [d for d in sink.packets if d[1] == hci.HCI_COMMAND_STATUS_EVENT][-1][3]
+        if status != 0:
+            return True
+        return len(_events(sink, done_cls)) == 1
+
+
 def conditions():
     out = registered(__name__)
     out += gencodec.conditions(['hcicmd'], timeout=(40.0, 120.0), oracle=reply_once, prefix='reply_', family='controller-reply-once', kernels=K_CTL,
